@@ -9,7 +9,16 @@ def job(dir, pkg, files, **kw):
 ERRGROUP = job("$GOMODCACHE/golang.org/x/sync@v0.6.0/errgroup", "golang.org/x/sync/errgroup", ["errgroup.go", "go120.go", "pre_go120.go"],
                **{"as_dir": "$REPO/zzverif/verrgroup"})
 
+FIRST_SUCCESS = job("$REPO", MOD, ["first-success.go"], imports={"golang.org/x/sync/errgroup": MOD + "/zzverif/verrgroup"})
+
 CHECKS = {
+    "C09": {
+        "pkg": ".", "harness": ["main/kit_test.go", "main/c18_test.go", "main/c09_test.go"], "run": "^TestVerif_C09$",
+        "level": "model_checking",
+        "instrument": [job("$REPO", MOD, ["multiepoch.go", "first-success.go"], imports={"golang.org/x/sync/errgroup": MOD + "/zzverif/verrgroup"}), ERRGROUP],
+        "quick": {"shards": 16, "budget_s": 90},
+        "thorough": {"shards": 16, "budget_s": 900},
+    },
     "C18": {
         "pkg": ".", "harness": ["main/kit_test.go", "main/c18_test.go"], "run": "^TestVerif_C18$",
         "level": "model_checking",
